@@ -145,15 +145,30 @@ def norm_pairing(ctx, P, step):
           and x.args[0].args[1] == "_multiply_constant"]
     ctx.ob("TS-4", f"{q}: walkers are scaled by the per-spin constants before the QR", len(mc) == 1,
            f"{len(mc)} _multiply_constant call(s) feeding the QR", step)
-    if len(mc) == 1:
-        cst = strip_wrappers(call_parts(mc[0])[1][1])
-        _constants_shape(ctx, q, step, cst)
     mcf = p.lookup_method(P, "_multiply_constant")
-    if mcf is not None:
+    roles = None
+    if len(mc) == 1 and mcf is not None:
+        # which parameter receives the walkers and which the constants is read off the call: the walkers are the
+        # argument that comes out of the Trotter propagator (the helper's parameter order and names are its own business)
+        from ..model import bind_call
+        _, pos_, kws_ = call_parts(mc[0])
+        ok_, _, mp_ = bind_call(mcf, len(pos_), list(kws_), True)
+        if ok_:
+            actual = {h_: (pos_[m_[1]] if m_[0] == "pos" else kws_[m_[1]]) for h_, m_ in mp_.items()}
+            wn = [h_ for h_, a_ in actual.items() if any(
+                x.op == "call" and x.args[0].op == "attr" and x.args[0].args[1] == "_apply_trotprop" for x in subterms(a_))]
+            cn = [h_ for h_ in actual if h_ not in wn]
+            if len(wn) == 1 and len(cn) == 1:
+                roles = (wn[0], cn[0])
+                _constants_shape(ctx, q, step, strip_wrappers(actual[cn[0]]))
+        if roles is None:
+            ctx.rep.note(f"{q}: the (walkers, constants) arguments of _multiply_constant were not identified; "
+                         f"the constants-shape and spin-matching rules do not apply")
+    if mcf is not None and roles is not None:
         ev = Evaluator(p)
         fr = ev.eval_function(mcf, self_class=P)
         R = strip_wrappers(ev.result(fr))
-        wpar, cpar = [sym(x.name) for x in mcf.params if x.name != "self"][:2]
+        wpar, cpar = sym(roles[0]), sym(roles[1])
         good = True
         for s in (0, 1):
             v = strip_wrappers(getitem(R, const(s)))
